@@ -14,7 +14,8 @@ out = ["**(a) %d changes seeded by independent sub-agents** (nine waves; each ag
  "property and a scratch worktree, nothing of /verif; the third wave was asked for the subtlest defects it",
  "could find, needing three or more conditions at once). Each change compiles, passes the repository's",
  "suite, comes with a demonstration that fails with it and passes without it; all were re-confirmed in",
- "fresh worktrees before being kept under `seeded/<id>/` (patch.diff, demo, README.md, meta.json).",
+ "fresh worktrees (`seeded/confirm.sh`) before being kept under `seeded/<id>/` (patch.diff, demo, README.md,",
+ "meta.json); the instructions the agents got are in `seeded/INSTRUCTIONS-*.md` (first and last wave).",
  "%d are caught by at least one check, %d by the check of the property they were seeded for (%d of those" % (anyc, tgt_now, tgt_first),
  "at the first attempt, the rest after the check was strengthened as described in the last column).", "",
  "| id | seeded for | change | caught by | notes |", "|---|---|---|---|---|"]
